@@ -2,8 +2,8 @@
 import ast
 
 from ..model import AnalysisError, unparse, walk_local
-from ..paths import Evaluator, is_c, show, C, S, NONE, subterms
-from .common import trace_tail
+from ..paths import State, Evaluator, is_c, show, C, S, NONE, subterms
+from .common import trace_tail, mk_algebra
 from . import cyclevec
 from .cyclevec import Aff
 
@@ -39,6 +39,8 @@ def run(ctx):
     c13.rule_criteria(ctx, 'C12.R5')
     c19.rule_shape_classes(ctx, 'C12.R6', names=('ensure_2d',))
     c19.rule_layout_only(ctx, 'C12.R6', names=('ensure_2d',))
+    c19.rule_ensure_sites(ctx, 'C12.R6', only={cyclevec.GCV})
+    rule_canonical_inputs(ctx, 'C12.R6')
     if ctx.tier == 'thorough':
         for rg, mk in ((True, False), (True, True), (False, True)):
             A2 = cyclevec.get(ctx, rg, mk)
@@ -241,6 +243,22 @@ def rule_unfiltered(ctx, rid, A):
         ctx.undecided(rid, fi, c, 'no wrap detection found')
     else:
         ctx.passed(rid, fi, c, '%d boundary forms' % n, node=A.col.node)
+    # the default threshold is the documented 1.5 pi (a wrap is a jump of ~2 pi; genuine phase steps stay below pi)
+    c = 'default wrap threshold is 1.5 * pi'
+    d = fi.defaults.get('phase_step')
+    alg = mk_algebra()
+    ok = False
+    if d is not None:
+        try:
+            t = Evaluator(A.P)._ev(d, State(), fi.module, fi, 0)[0][0]
+            ok = alg.poly(t) == alg.poly(('bin', '*', C(1.5), ('ref', 'numpy.pi')))
+        except Exception:
+            ok = False
+    if ok:
+        ctx.passed(rid, fi, c)
+    else:
+        ctx.violation(rid, fi, c, 'the default of phase_step is %s' % (unparse(d)[:40] if d is not None else 'missing'),
+                      expected='1.5 * np.pi')
 
 
 def _is_affine_N(A, p):
@@ -328,3 +346,52 @@ def rule_wrapfree(ctx, rid, A):
         ctx.violation(rid, fi, c, 'the wrap-free path continues into the boundary handling', node=A.col.node)
     else:
         ctx.passed(rid, fi, c, node=A.col.node)
+
+
+def rule_canonical_inputs(ctx, rid):
+    """The phase is canonicalised by ensure_2d on every path; with a mask, the mask too, and the two are compared on
+    the sample axis only (dim=0: a mask has one column, the phase one per IMF)."""
+    from .common import dim_checks
+    P = ctx.P
+    fi = P.func(cyclevec.GCV)
+    for mask_given in (False, True):
+        tag = 'mask given' if mask_given else 'no mask'
+        context = {'return_good': False}
+        if not mask_given:
+            context['mask'] = None
+        per_path = dim_checks(P, fi, context)
+        if mask_given:
+            per_path = [calls for calls in per_path if any('mask' in nm for f, nm, d in calls)] or \
+                [calls for calls in per_path]
+            per_path = [calls for calls in per_path]
+        c = '%s: phase goes through ensure_2d' % tag
+        if per_path and all(any(f == 'ensure_2d' and 'phase' in nm for f, nm, d in calls) for calls in per_path):
+            ctx.passed(rid, fi, c, '%d path(s)' % len(per_path))
+        else:
+            ctx.violation(rid, fi, c, 'a path uses the phase without canonicalising it (a vector must become one column)')
+    # mask paths: evaluated with a not-None mask
+    st = State()
+    st.notnone.add(S('mask'))
+    exits = [e for e in Evaluator(P).run(fi, context={'return_good': False}, state=st) if e.kind == 'return']
+    ok2d = okdim = bool(exits)
+    for e in exits:
+        terms = [eff[1] for eff in e.state.effects if eff[0] == 'expr'] + [v for v in e.state.env.values()
+                                                                            if isinstance(v, tuple)]
+        found2d = founddim = False
+        for t in terms:
+            for x in subterms(t):
+                if x[0] == 'call' and x[1] == 'emd.support.ensure_2d' and S('mask') in set(subterms(dict(x[3]).get('to_check', C(0)))):
+                    found2d = True
+                if x[0] == 'call' and x[1] == 'emd.support.ensure_equal_dims':
+                    kw = dict(x[3])
+                    tc = kw.get('to_check', C(0))
+                    if kw.get('dim') == C(0) and len(tc[1]) == 2 if tc[0] in ('tuple', 'list') else False:
+                        founddim = True
+        ok2d = ok2d and found2d
+        okdim = okdim and founddim
+    c = 'mask given: the mask goes through ensure_2d'
+    (ctx.passed if ok2d else ctx.violation)(rid, fi, c, '' if ok2d else 'the mask is used without canonicalisation')
+    c = 'mask given: phase and mask are compared on the sample axis (dim=0)'
+    (ctx.passed if okdim else ctx.violation)(rid, fi, c, '' if okdim else
+                                              'phase (one column per IMF) and mask (one column) are not compared on '
+                                              'dim=0: a valid mask is rejected, or a short one accepted')
